@@ -71,7 +71,15 @@ def rotation_ctor(rng, clsname):
 
 
 def ctor(rng, clsname, multi=False):
-    """Any public constructor of clsname -> (name, args, kwargs)."""
+    """Any public constructor of clsname -> (name, args, kwargs); one call in five hands its vector / matrix arguments over as
+    an unusual object (gen.LAYOUTS: frozen, non-contiguous, reversed-stride arrays, lists of NumPy scalars)"""
+    nm, args, kw = _ctor(rng, clsname, multi)
+    if rng.random() < 0.2:
+        kw = dict(kw, _layout=gen.LAYOUTS[rng.integers(len(gen.LAYOUTS))])
+    return nm, args, kw
+
+
+def _ctor(rng, clsname, multi=False):
     unit = UNITS[rng.integers(2)]
     r = rng.random()
     if clsname in ('SO3', 'SE3', 'UnitQuaternion'):
@@ -193,7 +201,33 @@ def call(clsname, name, args, kwargs):
         kwargs = dict(kwargs)
         np.random.seed(kwargs.pop('_seed'))
     args = [np.array(a) if isinstance(a, np.ndarray) else a for a in args]
+    if '_layout' in kwargs:
+        kwargs = dict(kwargs)
+        args = [_relayout(a, kwargs['_layout']) for a in args]
+        del kwargs['_layout']
     return f(*args, **kwargs)
+
+
+def _relayout(a, how):
+    if how in ('float32', 'float16', 'int'):
+        # vector arguments only (a matrix of a narrow type is not a member to 1e-9 in the first place); the values change, so
+        # this form is for closure (C01), not for value comparisons
+        isvec = (isinstance(a, np.ndarray) and a.ndim == 1 and a.dtype.kind == 'f') or (isinstance(a, list) and a and all(isinstance(x, float) for x in a))
+        if not isvec:
+            return a
+        v = np.asarray(a, dtype=np.float64)
+        if how == 'int':
+            w = np.round(v).astype(np.int32)
+            return w if np.any(w) and np.max(np.abs(v)) < 1e9 else a
+        w = v.astype(np.float32 if how == 'float32' else np.float16)
+        return w if np.all(np.isfinite(w)) and np.linalg.norm(w.astype(np.float64)) >= 2e-3 else a
+    if isinstance(a, np.ndarray) and a.dtype.kind == 'f' and (how != 'npscalars' or a.ndim == 1):
+        return gen.layout(a, how)
+    if isinstance(a, list) and a and all(isinstance(x, float) for x in a):
+        return gen.layout(np.array(a), how)
+    if isinstance(a, list) and a and all(isinstance(x, np.ndarray) for x in a) and how != 'npscalars':
+        return [gen.layout(x, how) for x in a]
+    return a
 
 
 def ref_leaf(rng, clsname, n=1):
